@@ -41,7 +41,8 @@ EPS = 1e-10
 
 # ---------------------------------------------------------------- the model
 class Model:
-    def __init__(self, names, defaults, mins, maxs, chk, nan):
+    def __init__(self, names, defaults, mins, maxs, chk, nan, cb=True):
+        self.cb = bool(cb)
         self.names = list(names)
         self.mins = np.array(mins, dtype=float)
         self.maxs = np.array(maxs, dtype=float)
@@ -52,7 +53,7 @@ class Model:
 
     def copy(self):
         m = Model(self.names, self.defaults, self.mins, self.maxs, self.chk,
-                  self.nan)
+                  self.nan, self.cb)
         m.values = self.values.copy()
         m.hit = self.hit
         return m
@@ -85,7 +86,7 @@ class Model:
     def obs(self):
         return (self.names, self.values.tolist(), self.mins.tolist(),
                 self.maxs.tolist(), self.defaults.tolist(), self.hit,
-                self.chk, self.nan)
+                self.chk, self.nan, self.cb)
 
 
 def observe(v):
@@ -96,7 +97,8 @@ def observe(v):
             float(e["max"]), float(e["default"])) for e in d["data"]])
     return (list(map(str, v.names)), v.values.tolist(), v.mins.tolist(),
             v.maxs.tolist(), v.defaults.tolist(), bool(v.hitbounds),
-            bool(v.check_hitbounds), bool(v.accept_nan)), dd
+            bool(v.check_hitbounds), bool(v.accept_nan),
+            bool(v.check_bounds)), dd
 
 
 def same(a, b):
@@ -131,10 +133,11 @@ def np_default(o):
 
 
 def make_vector(cfg):
-    names, defaults, mins, maxs, chk, nan = cfg
+    names, defaults, mins, maxs, chk, nan = cfg[:6]
+    cb = cfg[6] if len(cfg) > 6 else True
     v = Vector(list(names), list(defaults), list(mins), list(maxs),
-               check_hitbounds=chk, accept_nan=nan)
-    return v, Model(names, defaults, mins, maxs, chk, nan)
+               check_bounds=cb, check_hitbounds=chk, accept_nan=nan)
+    return v, Model(names, defaults, mins, maxs, chk, nan, cb)
 
 
 def apply_op(pool, op, labels, flags):
@@ -328,7 +331,10 @@ def config(draw):
         defaults.append(a + u * (b - a))
     chk = draw(st.booleans())
     nan = draw(st.booleans())
-    return [names, defaults, mins, maxs, chk, nan]
+    # check_bounds can only be switched off without hit checking (the
+    # values are clipped whatever its value)
+    cb = True if chk else draw(st.booleans())
+    return [names, defaults, mins, maxs, chk, nan, cb]
 
 
 @st.composite
